@@ -770,6 +770,22 @@ def enum_cases():
                     add('dloc_%s_%s_mask%d_nh%d' % ('v6' if v6 else 'v4', 'reach' if reach else 'withdraw', mi, len(nh[0]) if nh else 0),
                         {'kind': 'dloc', 'family': fam, 'net': all_masks(v6)[mi][1], 'attrs': [A0] if reach else [], 'nexthop': nh,
                          'ts': U32S[mi % len(U32S)], 'rid': V4S[mi % len(V4S)], 'asn': ASNS[mi % len(ASNS)]})
+    # the Loc-RIB virtual peer's Peer Up, for every AS-number width; the live Peer Down for every
+    # SessionDownReason; the Adj-RIB-Out converter
+    for asn in ASNS:
+        for rid in (V4S[0], V4S[4]):
+            add('dlocup_asn_%d' % asn, {'kind': 'dlocup', 'rid': rid, 'asn': asn})
+    for h in (H4, H6):
+        for nm, r in (('none', []), ('hold_timer', [0]), ('remote_notification', [1, NOTIF_FORMS[1]]), ('local_notification', [2, NOTIF_FORMS[0]]),
+                      ('remote_notification_with_data', [1, NOTIF_FORMS[2]]), ('fsm_error', [3]), ('admin_shutdown', [4]), ('io_error', [5])):
+            add('ddown_%s_peer_%s' % (nm, 'v6' if len(h[5]) == 16 else 'v4'), {'kind': 'ddown', 'reason': r, 'hdr': h})
+    for v6 in (0, 1):
+        fam = IPV6 if v6 else IPV4
+        for ap in (0, 1):
+            for reach in (1, 0):
+                add('dout_%s_%s_ap%d' % ('v6' if v6 else 'v4', 'reach' if reach else 'withdraw', ap),
+                    {'kind': 'dout', 'peer': [S6[0] if v6 else S4[0], ASNS[ap + 5], 0x0a000001], 'family': fam, 'addpath': ap,
+                     'entry': host_entries(v6, 1, ap, 1 + ap)[0], 'attrs': [A0] if reach else [], 'nexthop': (NH6 if v6 else NH4) if reach else [], 'ts': 9})
     # a session of another family than the peer address (cannot happen over TCP: correspondence only)
     mixed = [list(S4[0]), list(S6[1]), 1, 2, S4[4]]
     add('dmrt_api_local_address_of_other_family', {'kind': 'dmrt', 'change': [mixed, IPV4, 0, host_entries(0, 1), [A0], NH4, 1], 'api_only': 1})
@@ -945,7 +961,8 @@ class Prop:
     props_file = 'Props/C19.v'
     required_theorems = ['bmp_length_exact', 'bmp_readback', 'bmp_stream_readback', 'bmp_vflag_iff_v6',
                          'mrt_readback', 'mrt_length_exact', 'table_dump_counts_consistent',
-                         'conv_update_faithful', 'loc_rib_header_wf', 'flush_headers_wf', 'dump_peer_indexes_consistent']
+                         'conv_update_faithful', 'loc_rib_header_wf', 'flush_headers_wf', 'dump_peer_indexes_consistent',
+                         'session_down_reason', 'loc_rib_peer_up_wf', 'embed_total', 'needs_rfc8950_iff']
     correspondence_name = ('Model/Bmp.v bmp_encode_all vs packet/src/bmp.rs BmpCodec::encode (harness/hx-mon), '
                            'bytes compared one to one')
     rule = ('a case is a session: 1..6 messages through one codec into one (possibly pre-filled) buffer; '
@@ -1079,7 +1096,7 @@ class Prop:
                 if kind == 'mrt' and r != [-1]:
                     r = [r[0], r[2], r[1]]          # [buffer, blobs, timestamps ok]
                 obs[k] = r
-        for hook, test, kinds in (('C19b', 'bmp::verif_hx::verif_bmp_cases', ('dconv', 'dloc', 'dflush')),
+        for hook, test, kinds in (('C19b', 'bmp::verif_hx::verif_bmp_cases', ('dconv', 'dloc', 'dflush', 'dlocup', 'ddown', 'dout')),
                                   ('C19m', 'mrt::verif_hx::verif_mrt_cases', ('dmrt', 'ddump'))):
             idx = [k for k, c in enumerate(cases) if c['kind'] in kinds]
             if not idx:
@@ -1109,6 +1126,19 @@ class Prop:
                     jobs.append([[IPV4, IPV6], ap, pdu])
                 per.append(pl)
             o.insert(2, per)
+        for k, c in enumerate(cases):
+            o = obs[k]
+            if o == [-1] or c['kind'] not in ('dlocup', 'ddown'):
+                continue
+            pl = []
+            try:
+                for v in read_bmp_stream(o[0], 0):
+                    for pdu in v.get('pdus', []):
+                        where.append(pl); pl.append(None)
+                        jobs.append([[IPV4, IPV6], 0, pdu])
+            except Bad:
+                pass
+            o.append(pl)
         if jobs:
             pres, err = self._harness('parse', jobs)
             if pres is None:
@@ -1124,6 +1154,9 @@ class Prop:
         if k == 'dconv': return [0, c['change']]
         if k == 'dloc': return [1, c['family'], c['net'], c['attrs'], c['nexthop'], c['ts'], c['rid'], c['asn']]
         if k == 'dflush': return [2, c['changes'], c['addr'], c['hdr'], c['flags']]
+        if k == 'dlocup': return [3, c['rid'], c['asn']]
+        if k == 'ddown': return [4, c['reason'], c['hdr']]
+        if k == 'dout': return [5, c['peer'], c['family'], c['addpath'], c['entry'], c['attrs'], c['nexthop'], c['ts']]
         if k == 'dmrt': return [0, c['change']]
         return [1, c['rid'], c['routes']]
 
@@ -1159,6 +1192,16 @@ class Prop:
                 terms.append('run_loc %s (%s) %s (%s) %s %s %s %s' % (
                     cN(c['family']), cval(c['net']), ('(Some (%s))' % cval(attrs_enc(c['attrs'][0]))) if c['attrs'] else 'None',
                     cval(c['nexthop']), cN(c['ts']), cbytes(c['rid']), cN(c['asn']), cbytes(o[1])))
+            elif c['kind'] == 'dlocup':
+                terms.append('run_locup %s %s %s' % (cbytes(c['rid']), cN(c['asn']), cbytes(o[1][0])))
+            elif c['kind'] == 'ddown':
+                r = c['reason']
+                sd = 'None' if not r else '(Some %s)' % {0: 'SDHoldTimerExpired', 1: '(SDRemoteNotification %s)' % cbytes(o[1]), 2: '(SDLocalNotification %s)' % cbytes(o[1]),
+                                                         3: 'SDFsmError', 4: 'SDAdminShutdown', 5: 'SDIoError'}[r[0]]
+                terms.append('run_down %s %s' % (sd, cpph(c['hdr'])))
+            elif c['kind'] == 'dout':
+                terms.append('run_out_update %s (%s) %s (%s)' % (cN(c['family']), cval(c['entry']),
+                             ('(Some (%s))' % cval(attrs_enc(c['attrs'][0]))) if c['attrs'] else 'None', cval(c['nexthop'])))
             elif c['kind'] == 'dflush':
                 terms.append('run_flush %s %s %s %s' % (clist([cchange(x) for x in c['changes']]), cip(c['addr']), cpph(c['hdr']), cN(c['flags'])))
             elif c['kind'] == 'dmrt':
@@ -1189,6 +1232,12 @@ class Prop:
         if k == 'dconv':
             return obs
         if k == 'dloc':
+            return obs
+        if k == 'dlocup':
+            return obs[:7]
+        if k == 'ddown':
+            return obs[:4]
+        if k == 'dout':
             return obs
         if k == 'dmrt':
             return obs[:4]
@@ -1239,6 +1288,48 @@ class Prop:
         if k == 'dconv':
             if obs != update_desc(c['change']):
                 return 'adj_rib_in_to_bmp_update built %s from a change that says %s' % (obs, update_desc(c['change']))
+            return None
+        if k == 'dout':
+            want = [2, 0, c['family'], [c['entry']], c['nexthop'], attrs_enc(c['attrs'][0])] if c['attrs'] else [2, 1, c['family'], [c['entry']]]
+            if obs != want:
+                return 'adj_rib_out_to_bmp_update built %s from a change that says %s' % (obs, want)
+            return None
+        if k == 'dlocup':
+            try:
+                views = read_bmp_stream(obs[0], 0)
+            except Bad as e:
+                return 'Loc-RIB Peer Up does not read back: %s' % e
+            if len(views) != 1 or views[0]['ty'] != 3:
+                return 'Loc-RIB Peer Up is not exactly one Peer Up message'
+            v = views[0]
+            why = check_peer(v['peer'], [3, 0, c['asn'], c['rid'], 0, [0, 0, 0, 0], 0], 'Loc-RIB Peer Up header')
+            if why: return why
+            if v['laddr'] != [0] * 16 or v['lport'] or v['rport'] or v['info']:
+                return 'Loc-RIB Peer Up local address/ports/TLVs are not the zero ones'
+            for p, nm in zip(obs[-1], ('sent', 'received')):
+                # RFC 9069 4.4: a fabricated OPEN that states the local AS and BGP identifier
+                if p[0] != 1 or p[1] != c['asn'] or p[3] != dec(c['rid']) or p[-1] != 0:
+                    return '%s OPEN of the Loc-RIB peer parses back as AS %s id %s, the router is AS %d id %d' % (
+                        nm, p[1] if len(p) > 1 else p, p[3] if len(p) > 3 else '?', c['asn'], dec(c['rid']))
+            return None
+        if k == 'ddown':
+            r = c['reason']
+            want_code = 4 if not r else {0: 2, 1: 3, 2: 1, 3: 2, 4: 2, 5: 4}[r[0]]
+            try:
+                views = read_bmp_stream(obs[0], 0)
+            except Bad as e:
+                return 'Peer Down does not read back: %s' % e
+            if len(views) != 1 or views[0]['ty'] != 2:
+                return 'not exactly one Peer Down message'
+            v = views[0]
+            why = check_peer(v['peer'], c['hdr'], 'Peer Down header')
+            if why: return why
+            if v['reason'] != want_code:
+                return 'Peer Down reason %d for session-down cause %s' % (v['reason'], r)
+            if want_code in (1, 3):
+                p = obs[-1][0]
+                if p[:4] != [3, r[1][1], r[1][2], expand(r[1][3])]:
+                    return 'NOTIFICATION of the Peer Down parsed back as %s' % (p,)
             return None
         if k == 'dloc':
             want = [2, 0 if c['attrs'] else 1, c['family'], [[0, c['net']]]] + ([c['nexthop'], attrs_enc(c['attrs'][0])] if c['attrs'] else [])
@@ -1506,6 +1597,12 @@ class Prop:
         if c['kind'] in ('dconv', 'dmrt'):
             ch = c['change']
             return (c['kind'], ch[1], ch[2], len(ch[3]), bool(ch[4]), len(ch[0][0]), len(ch[5][0]) if ch[5] else 0)
+        if c['kind'] == 'dlocup':
+            return ('dlocup', c['asn'], tuple(c['rid']))
+        if c['kind'] == 'ddown':
+            return ('ddown', json.dumps(c['reason']), len(c['hdr'][5]))
+        if c['kind'] == 'dout':
+            return ('dout', c['family'], c['addpath'], bool(c['attrs']))
         if c['kind'] == 'dloc':
             return ('dloc', c['family'], bool(c['attrs']), c['net'][1], c['asn'], c['ts'])
         if c['kind'] == 'dflush':
